@@ -122,6 +122,9 @@ type Config struct {
 	MaxSteps  int
 	Trace     bool
 	Race      bool // run the vector-clock race detector on Acc probes
+	// PointHook, if set, runs in the context of the running thread at every scheduling point
+	// (before the scheduling decision); used to place one environment action at any point.
+	PointHook func()
 }
 
 type timer struct {
@@ -161,6 +164,7 @@ type Exec struct {
 	wgReal   sync.WaitGroup
 	Points   int
 	Switches int
+	inHook   bool
 }
 
 // E is the current controlled execution (nil outside one).
@@ -444,6 +448,11 @@ func (e *Exec) point(o *op) {
 	if e.steps > e.cfg.MaxSteps {
 		e.out.StepLimit = true
 		e.finish()
+	}
+	if e.cfg.PointHook != nil && !e.inHook {
+		e.inHook = true
+		e.cfg.PointHook()
+		e.inHook = false
 	}
 	if e.cfg.StallMenu && len(e.cfg.Stalls) > 0 {
 		if k := e.choose(KStall, 1+len(e.cfg.Stalls)); k > 0 {
